@@ -647,6 +647,24 @@ func genCrashCase(i int) crashCase {
 		}
 		// the renegotiation and what follows go out one by one as well: each read meets the new msize
 		return crashCase{target: target, kind: "renegotiate", setup: fr, input: ccFrame(&gmsg{kind: go9p.Tstat, a: 1}, dotu, 999), frames: len(fr) - ns}
+	case 3: // huge counts, pipelined, on opened files and directories (the count guard in uint32 arithmetic)
+		fr := setupFrames(target, msize, dotu)
+		var in []byte
+		for j := 0; j < 16; j++ {
+			cnt := []uint64{0xfffffff0, 0xffffffe8, 0xffffffe7, 0xffffffff, 0x80000000, uint64(eff) - 24, uint64(eff) - 23}[j%7]
+			fid := []uint64{3, 3, 4, 8, 3}[j%5]
+			in = append(in, ccFrame(&gmsg{kind: go9p.Tread, a: fid, b: uint64(j % 3), c: cnt}, dotu, uint16(100+j))...)
+			if j%4 == 3 {
+				d := make([]byte, 8)
+				f := ccFrame(&gmsg{kind: go9p.Twrite, a: 3, b: 0, data: d}, dotu, uint16(150+j))
+				// the count field of a Twrite lies about its payload
+				if len(f) > 23 {
+					binary.LittleEndian.PutUint32(f[19:], uint32(cnt))
+				}
+				in = append(in, f...)
+			}
+		}
+		return crashCase{target: target, kind: "hugecount", setup: fr, input: in, frames: len(fr) + 16}
 	case 4: // a request queued behind a slow one with the same tag is flushed before it starts; the pool holds recycled reply buffers of the same type
 		if target == "ufs" {
 			target = "scripted"
